@@ -1,11 +1,11 @@
-"""replayer for C10: exit 10 = reproduces, 11 = does not (treewidth by brute force over elimination orders)"""
+"""replayer for C10: exit 10 = reproduces, 11 = does not (treewidth by brute force over elimination orders, by subset DP beyond 6 vertices)"""
 import json, os, sys
 sys.path.insert(0, os.path.dirname(os.path.dirname(os.path.abspath(__file__))))
 from oracles import c10_run, treedec
 d = json.load(open(sys.argv[1]))
 r = d['replay']
 edges = [tuple(e) for e in r['edges']]
-tw = treedec.treewidth_bruteforce(r['n'], edges)
-p = c10_run.run(r['n'], edges, tw)
+tw = treedec.treewidth_bruteforce(r['n'], edges) if r['n'] <= 6 else treedec.treewidth_dp(r['n'], edges)
+p = c10_run.run(r['n'], edges, tw, r.get('order'))
 print('replay: n', r['n'], 'edges', edges, 'treewidth', tw, 'problems', p)
 sys.exit(10 if p else 11)
